@@ -16,10 +16,14 @@ readme=open(src+"/README.md").read() if os.path.exists(src+"/README.md") else ""
 def pkgdir(demo):
     base=os.path.basename(demo)
     m=re.search(r"cp\s+\S*"+re.escape(base)+r"\s+(\S+)",readme)
-    if m: return m.group(1).rstrip('/').replace('/tmp/mut-%s/'%ID,'')
+    if m:
+        d=m.group(1).rstrip('/').replace('/tmp/mut-%s/'%ID,'')
+        return os.path.dirname(d) if d.endswith('.go') else d
     head=open(demo).read(2000)
     m=re.search(r"((?:crypto|network|windows|utils|logger)/[A-Za-z0-9_./-]+)",head) or re.search(r"((?:crypto|network|windows|utils|logger)/[A-Za-z0-9_./-]+)",readme)
-    return m.group(1).rstrip('/.') if m else None
+    if not m: return None
+    d=m.group(1).rstrip('/.')
+    return os.path.dirname(d) if d.endswith('.go') else d
 wt=tempfile.mkdtemp(prefix="ingest.",dir="/tmp"); os.rmdir(wt)
 subprocess.check_call(["git","-C","/repo","worktree","add","-q",wt,"HEAD"])
 meta={"property":ID,"source":f"independent sub-agent, {src}","repo_head":subprocess.check_output(["git","-C","/repo","rev-parse","--short","HEAD"],text=True).strip()}
